@@ -254,6 +254,9 @@ func c03Alphabet() []c03Rec {
 		{"2024-01-02T03:04:00Z", time.Date(2024, 1, 2, 3, 4, 0, 0, time.UTC)},
 		{"2024-01-02T03:04:00.000000001Z", time.Date(2024, 1, 2, 3, 4, 0, 1, time.UTC)},
 		{"2024-01-02T03:04:59.999999999+02:00", time.Date(2024, 1, 2, 3, 4, 59, 999999999, plus2)},
+		// fractions of fewer than nine digits (what RFC3339Nano prints when the nanoseconds end in zeros)
+		{"2024-01-02T03:04:33.5Z", time.Date(2024, 1, 2, 3, 4, 33, 500000000, time.UTC)},
+		{"2024-01-02T03:04:33.012345+02:00", time.Date(2024, 1, 2, 3, 4, 33, 12345000, plus2)},
 	}
 	msgs := []string{"", "a", "a b", " lead", "x\ny", "\xff\xfe", "t\n"}
 	var out []c03Rec
@@ -353,7 +356,7 @@ func c03Run(r *vkit.Run) {
 		}
 	}
 	r.Count("decoder_runs", cases)
-	r.Note("bounds", fmt.Sprintf("all record sequences of length <=%d over %d records (3 stream types x 3 timestamp spellings x 7 messages; length 3 varies the stream type of the first record only); per sequence: every truncation offset, every read-error offset, every stall offset, all single cuts, all double cuts (length<=2), bytewise, framewise, EOF-with-data, every position of systemerr/bad-timestamp/no-space/oversized frame", maxLen, len(alpha)))
+	r.Note("bounds", fmt.Sprintf("all record sequences of length <=%d over %d records (3 stream types x 5 timestamp spellings x 7 messages; length 3 varies the stream type of the first record only); per sequence: every truncation offset, every read-error offset, every stall offset, all single cuts, all double cuts (length<=2), bytewise, framewise, EOF-with-data, every position of systemerr/bad-timestamp/no-space/oversized frame", maxLen, len(alpha)))
 }
 
 func c03Replay(r *vkit.Run, v vkit.Violation) *vkit.Violation {
